@@ -16,6 +16,13 @@ use std::time::{Duration, Instant};
 
 pub const BUILD_DIR: &str = "/verif/.build/debug";
 
+/// Writers of files that will be executed hold this for reading while the file is open; every
+/// fork of the harness (Command::spawn) holds it for writing. Without it a child forked by one
+/// worker thread inherits, until its exec, the write descriptor another thread has open on a
+/// command script - and monorail, started a moment later, gets ETXTBSY ("Text file busy") when
+/// it tries to execute that script.
+pub static FORK_LOCK: std::sync::RwLock<()> = std::sync::RwLock::new(());
+
 /// A private copy of a built executable, taken once per harness process: a rebuild that replaces
 /// the file in the build directory while a check is running (another check's build step, an
 /// edit of the harness) must not change what this check executes half-way through.
@@ -24,6 +31,7 @@ fn private_copy(src: PathBuf, slot: &'static std::sync::OnceLock<PathBuf>) -> Pa
         let name = src.file_name().map(|n| n.to_os_string()).unwrap_or_default();
         let dst = scratch::root().join("bin").join(name);
         let _ = std::fs::create_dir_all(dst.parent().unwrap());
+        let _g = FORK_LOCK.read();
         match std::fs::copy(&src, &dst) {
             Ok(_) => dst,
             Err(_) => src,
@@ -310,6 +318,7 @@ impl Env {
         if let Some(d) = p.parent() {
             let _ = std::fs::create_dir_all(d);
         }
+        let _g = FORK_LOCK.read();
         std::fs::write(&p, content).unwrap_or_else(|e| panic!("write {}: {}", p.display(), e));
     }
 
@@ -350,7 +359,10 @@ impl Env {
         if let Some(d) = p.parent() {
             std::fs::create_dir_all(d).unwrap();
         }
-        std::fs::write(&p, b"#!/bin/sh\nexec \"$MRV_HELPER\" \"$0\" \"$@\"\n").unwrap();
+        {
+            let _g = FORK_LOCK.read();
+            std::fs::write(&p, b"#!/bin/sh\nexec \"$MRV_HELPER\" \"$0\" \"$@\"\n").unwrap();
+        }
         let mode = if executable { 0o755 } else { 0o644 };
         std::fs::set_permissions(&p, std::fs::Permissions::from_mode(mode)).unwrap();
     }
@@ -570,7 +582,10 @@ impl Env {
         }
         c.process_group(0);
         let t0 = Instant::now();
-        let mut child = c.spawn().expect("spawn failed");
+        let mut child = {
+            let _g = FORK_LOCK.write();
+            c.spawn().expect("spawn failed")
+        };
         let pid = child.id();
         self.pgids.push(pid as i32);
         if let Some(data) = stdin {
